@@ -702,6 +702,11 @@ fn conform(a: &Analysis, trace: &[[usize; 12]], ins: &[String]) -> Option<String
         if ins.get(pc).map(|s| s == "PopRet").unwrap_or(false) && bases.len() > 1 {
             bases.pop();
         }
+        // RESUME label continues in the module-level code: the activations that were running when the
+        // error occurred are abandoned without a PopRet
+        if ins.get(pc).map(|s| s == "ResumeLabel").unwrap_or(false) {
+            bases.truncate(1);
+        }
     }
     None
 }
